@@ -17,18 +17,20 @@ Qed.
 
 Lemma cmatch_eq t : HS.wf t = true -> forall T x, cmatch_impl t T x = cmatch_spec t T x.
 Proof.
-  intros W T x. destruct x; try reflexivity. unfold cmatch_impl, cmatch_spec.
+  intros W0 T x. assert (W : HS.closed t = true /\ HS.acyclic t = true).
+  { unfold HS.wf in W0. apply andb_prop in W0 as [W0 _]. apply andb_prop in W0. exact W0. }
+  destruct W as [Wc Wa]. destruct x; try reflexivity. unfold cmatch_impl, cmatch_spec.
   destruct (H.get_class t cls) as [c|] eqn:G; [|reflexivity].
   destruct (String.eqb T "Throwable") eqn:ET.
   - apply String.eqb_eq in ET. subst T.
-    destruct (HP.catch_throwable t cls c W G) as (b & -> & Hb). simpl.
+    destruct (HP.catch_throwable t cls c Wc Wa G) as (b & -> & Hb). simpl.
     apply bool_iff_eq. rewrite Hb.
     rewrite !orb_true_iff.
-    rewrite (HP.is_ab_is_a t cls c "Throwable" W G), (HP.is_ab_is_a t cls c "Exception" W G),
-            (HP.is_ab_is_a t cls c "Error" W G). tauto.
+    rewrite (HP.is_ab_is_a t cls c "Throwable" Wc Wa G), (HP.is_ab_is_a t cls c "Exception" Wc Wa G),
+            (HP.is_ab_is_a t cls c "Error" Wc Wa G). tauto.
   - assert (NT : T <> "Throwable") by (intros ->; rewrite String.eqb_refl in ET; discriminate).
-    destruct (HP.catch_reach t cls c T W G NT) as (b & -> & Hb). simpl.
-    rewrite orb_false_r. apply bool_iff_eq. rewrite Hb. symmetry. apply (HP.is_ab_is_a t cls c T W G).
+    destruct (HP.catch_reach t cls c T Wc Wa G NT) as (b & -> & Hb). simpl.
+    rewrite orb_false_r. apply bool_iff_eq. rewrite Hb. symmetry. apply (HP.is_ab_is_a t cls c T Wc Wa G).
 Qed.
 
 Lemma impl_refines_ref_exn_l : forall t, HS.wf t = true ->
@@ -71,6 +73,8 @@ Lemma extends_bump g : extends g (bump g).
 Proof. apply extends_same. reflexivity. Qed.
 Lemma extends_set_stat st g : extends g (set_stat st g).
 Proof. apply extends_same. reflexivity. Qed.
+Lemma extends_set_prop i v g : extends g (set_prop i v g).
+Proof. apply extends_same. reflexivity. Qed.
 Lemma wr_extends fn x v fr g fr' g' : wr fn x v fr g = (fr', g') -> extends g g'.
 Proof.
   unfold wr. destruct (mem x (snd fr)); intros [= <- <-]; [apply extends_set_stat|apply extends_refl].
@@ -98,6 +102,7 @@ Ltac chain :=
   | |- extends ?a (emit _ ?b) => apply (extends_trans a b); [chain | apply extends_emit]
   | |- extends ?a (bump ?b) => apply (extends_trans a b); [chain | apply extends_bump]
   | |- extends ?a (set_stat _ ?b) => apply (extends_trans a b); [chain | apply extends_set_stat]
+  | |- extends ?a (set_prop _ _ ?b) => apply (extends_trans a b); [chain | apply extends_set_prop]
   | H : extends ?a ?m |- extends ?a ?b => apply (extends_trans a m b H); chain
   end.
 Ltac fin_ext :=
@@ -167,6 +172,9 @@ Proof.
   - (* EIdxInc *) the_eq ltac:(fun E => rewrite ieval_idxinc in E). solve_eq.
   - (* EClosure *) the_eq ltac:(fun E => rewrite ieval_closure in E). solve_eq.
   - (* ECallV *) the_eq ltac:(fun E => rewrite ieval_callv in E). solve_eq.
+  - (* EProp *) the_eq ltac:(fun E => rewrite ieval_prop in E). solve_eq.
+  - (* ESetProp *) the_eq ltac:(fun E => rewrite ieval_setprop in E). solve_eq.
+  - (* EHi *) the_eq ltac:(fun E => rewrite ieval_hi in E). solve_eq.
   - (* EMatch *) the_eq ltac:(fun E => rewrite ieval_match in E). solve_eq.
   - (* ANil *)
     split; intros; [|the_eq ltac:(fun E => rewrite ieval_conds_nil in E)];
@@ -323,6 +331,7 @@ Proof.
     assert (G : g' = g4) by (destruct cf; inversion H; reflexivity). subst g'.
     eapply extends_try; eauto.
   - rewrite iexec_throw in H. repeat brk H; use_all; fin_ext.
+  - rewrite iexec_ifinst in H. repeat brk H; use_all; fin_ext.
 Qed.
 End Step.
 
